@@ -5,6 +5,7 @@
      sem cs m       := existsb (fun c => cube_value c m) cs
      irredundant cs := no zero cube, NoDup, strictly increasing for cube_cmp, and no cube implies another one *)
 From Coq Require Import List NArith Bool Sorted.
+From V Require Import Spec.TwoLevelCost Checkers.Check Proofs.CheckSoundTwoLevel Proofs.CheckSoundCube.   (* the extracted checkers and their soundness proofs, pinned at the end of this file *)
 From V Require Import Proofs.Order.
 From V Require Import Base.Res Model.Kernels Model.TwoLevel Spec.Bfun Proofs.SopProofs.
 Import ListNotations.
@@ -171,3 +172,77 @@ Print Assumptions C14_from_lut_good.
 Print Assumptions C14_to_lut_sem.
 Print Assumptions C14_roundtrip.
 Print Assumptions C14_roundtrip_closed.
+
+
+(* ---- soundness of the extracted checkers that decide this property's statement on the implementation's results *)
+Theorem C14_checker_strictly_sorted_iff : forall cs,
+  strictly_sorted cs = true <-> StronglySorted (fun a b => cube_cmp a b = Lt) cs.
+Proof. exact CheckSoundTwoLevel.strictly_sorted_iff. Qed.
+
+Theorem C14_checker_irredundantb_iff : forall n cs,
+  irredundantb n cs = true <-> Forall (fun c => cube_good n c = true) cs /\ SopProofs.irredundant cs.
+Proof. exact CheckSoundTwoLevel.irredundantb_iff. Qed.
+
+Theorem C14_checker_sop_result_iff : forall n r f,
+  chk_sop_result n r f = true <->
+  irredundantb n r = true /\ forall m, m < 2 ^ N.of_nat n -> sem_or r m = f m.
+Proof. exact CheckSoundTwoLevel.chk_sop_result_iff. Qed.
+
+Theorem C14_checker_sop_result_spec : forall n r f,
+  chk_sop_result n r f = true <->
+  Forall (fun c => cube_good n c = true) r /\ SopProofs.irredundant r /\
+  forall m, m < 2 ^ N.of_nat n -> SopProofs.sem r m = f m.
+Proof. exact CheckSoundTwoLevel.chk_sop_result_spec. Qed.
+
+Theorem C14_checker_sop_or_model : forall a b r,
+  snv a = snv b ->
+  Forall SopProofs.c32 (scubes a) -> Forall SopProofs.c32 (scubes b) ->
+  Forall (cube_below (snv a)) (scubes a) -> Forall (cube_below (snv a)) (scubes b) ->
+  sop_or a b = Ok r ->
+  snv r = snv a /\ chk_sop_result (snv a) (scubes r) (fun m => sop_value a m || sop_value b m) = true.
+Proof. exact CheckSoundTwoLevel.chk_sop_or_model. Qed.
+
+Theorem C14_checker_sop_and_model : forall a b r,
+  snv a = snv b ->
+  Forall SopProofs.c32 (scubes a) -> Forall SopProofs.c32 (scubes b) ->
+  Forall (cube_below (snv a)) (scubes a) -> Forall (cube_below (snv a)) (scubes b) ->
+  sop_and a b = Ok r ->
+  snv r = snv a /\ chk_sop_result (snv a) (scubes r) (fun m => sop_value a m && sop_value b m) = true.
+Proof. exact CheckSoundTwoLevel.chk_sop_and_model. Qed.
+
+Theorem C14_checker_sop_not_model : forall s r,
+  Forall SopProofs.c32 (scubes s) -> Forall (cube_below (snv s)) (scubes s) ->
+  sop_not s = Ok r ->
+  snv r = snv s /\ chk_sop_result (snv s) (scubes r) (fun m => negb (sop_value s m)) = true.
+Proof. exact CheckSoundTwoLevel.chk_sop_not_model. Qed.
+
+Theorem C14_checker_sop_from_lut_iff : forall n t r,
+  (n <= 32)%nat ->
+  (chk_sop_from_lut n t r = true <-> r = scubes (sop_from_lut n t)).
+Proof. exact CheckSoundTwoLevel.chk_sop_from_lut_iff. Qed.
+
+Theorem C14_checker_sop_from_lut_sound : forall n t r,
+  (n <= 32)%nat -> chk_sop_from_lut n t r = true ->
+  Forall SopProofs.good r /\ forall m, m < 2 ^ N.of_nat n -> sem_or r m = val t m.
+Proof. exact CheckSoundTwoLevel.chk_sop_from_lut_sound. Qed.
+
+Theorem C14_checker_spec_sop_value_model : forall s m,
+  Forall CubeProofs.c32 (scubes s) -> spec_sop_value (scubes s) m = sop_value s m.
+Proof. exact CheckSoundCube.spec_sop_value_model. Qed.
+
+Theorem C14_checker_text_sop : forall s ms,
+  Forall CubeProofs.c32 (scubes s) ->
+  chk_text (sop_display s) (spec_sop_value (scubes s)) ms false = true.
+Proof. exact CheckSoundCube.chk_text_sop. Qed.
+
+Print Assumptions C14_checker_strictly_sorted_iff.
+Print Assumptions C14_checker_irredundantb_iff.
+Print Assumptions C14_checker_sop_result_iff.
+Print Assumptions C14_checker_sop_result_spec.
+Print Assumptions C14_checker_sop_or_model.
+Print Assumptions C14_checker_sop_and_model.
+Print Assumptions C14_checker_sop_not_model.
+Print Assumptions C14_checker_sop_from_lut_iff.
+Print Assumptions C14_checker_sop_from_lut_sound.
+Print Assumptions C14_checker_spec_sop_value_model.
+Print Assumptions C14_checker_text_sop.
